@@ -2,6 +2,7 @@
   C18 — lazily cached decodings are correct and leak-free under concurrent readers.
 -/
 import SonicModel.Lemmas.CacheProof
+import SonicModel.Impl.Visibility
 namespace Sonic.Thm.C18
 open Sonic Cache
 
@@ -76,5 +77,47 @@ example : (run true init [(0, .read false), (1, .read false), (0, .read false), 
 example : let s := run true init [(0, .read false), (1, .read false), (0, .read false), (1, .read false),
     (1, .read false), (0, .read false), (2, .clone)]
     s.pc 0 = .done 1 ∧ s.pc 1 = .done 1 ∧ s.refs 1 = 2 ∧ s.refs 0 = 0 ∧ s.frees 0 = 1 := by decide
+
+
+/-! ### what the atomic operations are allowed to return: visibility of the published object -/
+
+open Visibility Gen in
+/-- a reader that loads the pointer with (at least) `Acquire` from a `Release`-or-stronger publication and
+    finds it non-null can only read the initialised object -/
+theorem acquire_reader_sees_initialised (loadOrd casOrd : MemOrd) (hl : isAcquire loadOrd = true)
+    (hc : casOrd = .release ∨ casOrd = .acqRel ∨ casOrd = .seqCst) (tp td p d : Nat)
+    (h : reader loadOrd casOrd tp td = some (p, d)) (hp : p = 1) : d = 1 := by
+  rcases Nat.lt_or_ge tp 2 with h2 | h2
+  · rcases Nat.lt_or_ge td 2 with h3 | h3
+    · have htp : tp = 0 ∨ tp = 1 := by omega
+      have htd : td = 0 ∨ td = 1 := by omega
+      rcases htp with rfl | rfl <;> rcases htd with rfl | rfl <;> rcases hc with rfl | rfl | rfl <;>
+        simp [reader, hl, publishedView, View.join] at h <;> omega
+    · have : tp > 1 ∨ td > 1 := Or.inr (by omega)
+      simp [reader, this] at h
+  · have : tp > 1 ∨ td > 1 := Or.inl (by omega)
+    simp [reader, this] at h
+
+open Visibility Gen in
+/-- with a `Relaxed` load the model allows the execution in which the pointer is seen and the object is not:
+    the reader dereferences uninitialised memory -/
+theorem relaxed_reader_may_see_uninitialised : reader .relaxed .acqRel 1 0 = some (1, 0) := by decide
+
+open Gen in
+/-- **every load of a cache pointer in the source synchronises with the publication** (the table is
+    regenerated from `src/lazyvalue/{owned,value}.rs` on every run): each is `Acquire` or `SeqCst` -/
+theorem all_cache_loads_synchronise :
+    ∀ e ∈ cacheLoads, Visibility.isAcquire e.2.2 = true := by decide
+
+open Gen in
+/-- every publication is a `compare_exchange` that releases on success and acquires on failure (the loser
+    dereferences the winner's object) -/
+theorem all_cache_publications_release :
+    ∀ e ∈ cacheCas, (e.2.2.1 = .release ∨ e.2.2.1 = .acqRel ∨ e.2.2.1 = .seqCst) ∧ Visibility.isAcquire e.2.2.2 = true := by
+  decide
+
+open Gen in
+/-- there is no plain store to a cache pointer: publication happens only through the compare-exchange -/
+theorem no_plain_store : cacheStores = [] := by decide
 
 end Sonic.Thm.C18
